@@ -19,6 +19,7 @@ func init() {
 }
 
 func runC03(c *Ctx) {
+	defer checkCanHandleExact(c, "C03.R8")
 	defer checkStoreKeyed(c, "C03.R7", storeRow{meth: "CreatePKCERequestSession", table: "PKCES", op: "create", key: 2}, storeRow{meth: "GetPKCERequestSession", table: "PKCES", op: "get", key: 2}, storeRow{meth: "DeletePKCERequestSession", table: "PKCES", op: "delete", key: 2})
 	defer checkConfigGetters(c, "C03.R6", "GetEnforcePKCE", "GetEnforcePKCEForPublicClients", "GetEnablePKCEPlainChallengeMethod")
 	c03R1(c)
